@@ -143,6 +143,9 @@ func (s *state) unmarshal(data []byte, fixItem fix.Item) error {
 		startFirstFieldTag := bytes.Index(data[startNoTag:], fix.Delimiter)
 		arrayString := data[startNoTag+startFirstFieldTag:]
 		endFirstFieldTag := bytes.Index(arrayString, []byte{'='})
+		if endFirstFieldTag == -1 {
+			return fmt.Errorf("no fields found after the group counter %s", noTag)
+		}
 
 		firstTag := arrayString[:endFirstFieldTag+1]
 		arrayItems := splitGroup(arrayString, firstTag)
